@@ -420,6 +420,7 @@ CLI_CORPUS_KEYS = {
     "C09": ("exact=1", "timing=1"),
     "C12": ("exact=1", "meaningmax"),
     "C15": ("mode=file",),
+    "C14": ("fpath=",),
     "C01": ("pushgw",),
     "C16": ("pushgw", "static"),
 }
@@ -505,6 +506,12 @@ def cli_corpus():
         c(mode="file", fdur=500, conc=2, bodyms=2, maxit=9, failevery=2, fstages="u:300:2", pushgw="ok", static=1),
         c(mode="users", dur=d200, conc=2, bodyms=3, pushgw="down", leakcheck=0),
         c(mode="users", dur=d200, conc=2, bodyms=3, maxit=12, failevery=4, pushgw="ok", pushurl="bare", static=1),   # PROMETHEUS_PUSH_GATEWAY=host:port
+        c(mode="file", fdur=300, conc=1, bodyms=1, fstages="c:200:1/50ms", fpath="dir"),                              # the config path is a directory: refused, not a crash
+        c(mode="file", fdur=300, conc=1, bodyms=1, fstages="u:200:1", fpath="missing"),
+        c(mode="users", dur=hx("400ms"), conc=2, maxit=10, failevery=5, bodyms=0, expectlimit=1, profile="cpu"),    # a failed run is a failed command with profiling on, too
+        c(mode="users", dur=hx("400ms"), conc=2, maxit=10, failevery=5, bodyms=0, expectlimit=1, profile="mem"),
+        c(mode="users", dur=d200, conc=2, bodyms=10, tdfail=1, profile="mem"),
+        c(mode="users", dur=hx("600ms"), conc=10, maxit=3, bodyms=5, expectlimit=1, retmax=3000),                  # more users than iterations left: the run still ends
         c(mode="constant", dur=d200, conc=2, raw=hx("--nope")),
         c(mode="constant", dur=d200, conc=2, raw=hx("extra-positional")),
     ]
